@@ -64,10 +64,126 @@ theorem flag_dagger_of_selfadjoint (g : QGate) (h : g.dg = none) (f : Bool) :
     ((Gate.q g).dagger.evalW f = dagger ((Gate.q g).evalW f)) ↔ g.arr = dagger g.arr := by
   simp [Gate.dagger, QGate.dagger, Gate.evalW, Gate.isDagger, Gate.arrayW, h]
 
-/-- Scalars (gates.py:529-531) for every value: conjugation. -/
+/-- Scalars (gates.py:556-558) for every value: conjugation. -/
 theorem scalar_dagger (z : Cyc8) (f : Bool) :
     (Gate.scalar z).dagger.evalW f = dagger ((Gate.scalar z).evalW f) := by
   simp [Gate.dagger, Gate.evalW, Gate.isDagger, Gate.arrayW, dagger, transpose, Conj.conj]
+
+/-! ### square-root scalars `sqrt(z)` (gates.py:567-575; dagger inherited from `Scalar`, 556-558) -/
+
+/-- The dagger of `sqrt(z)` (value `r`) evaluates to the conjugate of its evaluation exactly when the
+    box is NOT taken for self-adjoint, or its value is real — in both positions of the switch F4k. -/
+theorem sqrt_dagger_iffW (fix : Bool) (z r : Cyc8) (f : Bool) :
+    ((sqrtDaggerW fix z r).evalW f = dagger ((Gate.sqrt z r).evalW f)) ↔
+      (sqrtSelfAdjointW fix z r = false ∨ r.conj = r) := by
+  unfold sqrtDaggerW
+  cases h : sqrtSelfAdjointW fix z r <;>
+    simp [Gate.evalW, Gate.isDagger, Gate.arrayW, dagger, transpose, Conj.conj, eq_comm]
+
+/-- **`sqrt_dagger`**: for `z` that is not its own conjugate (every non-real `z`) the dagger of `sqrt(z)`
+    evaluates to the conjugate of the evaluation of `sqrt(z)` — `Scalar(conj(z ** .5))`, the conjugate of the
+    ROOT, not of the data. -/
+theorem sqrt_dagger_nonreal (z r : Cyc8) (f : Bool) (h : z.conj ≠ z) :
+    (Gate.sqrt z r).dagger.evalW f = dagger ((Gate.sqrt z r).evalW f) := by
+  cases hf : f4kFixed
+  · have : sqrtSelfAdjointW false z r = false := by simp [sqrtSelfAdjointW, h]
+    simp only [Gate.dagger, hf]; exact (sqrt_dagger_iffW false z r f).2 (.inl this)
+  · by_cases hr : r.conj = r
+    · simp only [Gate.dagger, hf]; exact (sqrt_dagger_iffW true z r f).2 (.inr hr)
+    · have : sqrtSelfAdjointW true z r = false := by simp [sqrtSelfAdjointW, hr]
+      simp only [Gate.dagger, hf]; exact (sqrt_dagger_iffW true z r f).2 (.inl this)
+
+/-- … and for a real value of the root (`z ≥ 0`): the box is its own dagger, rightly. -/
+theorem sqrt_dagger_real_root (z r : Cyc8) (f : Bool) (h : r.conj = r) :
+    (Gate.sqrt z r).dagger.evalW f = dagger ((Gate.sqrt z r).evalW f) :=
+  (sqrt_dagger_iffW f4kFixed z r f).2 (.inr h)
+
+/-- The criterion for the code the switch selects. -/
+theorem sqrt_dagger_iff (z r : Cyc8) (f : Bool) :
+    ((Gate.sqrt z r).dagger.evalW f = dagger ((Gate.sqrt z r).evalW f)) ↔
+      (sqrtSelfAdjoint z r = false ∨ r.conj = r) := sqrt_dagger_iffW f4kFixed z r f
+
+/-- With the proposed repair of F4k (self-adjointness decided on the value) it holds for EVERY `z`. -/
+theorem sqrt_dagger_fixed (z r : Cyc8) (f : Bool) :
+    (sqrtDaggerW true z r).evalW f = dagger ((Gate.sqrt z r).evalW f) := by
+  by_cases hr : r.conj = r
+  · exact (sqrt_dagger_iffW true z r f).2 (.inr hr)
+  · exact (sqrt_dagger_iffW true z r f).2 (.inl (by simp [sqrtSelfAdjointW, hr]))
+
+/-- F4k witness: `sqrt(-4)` (value `2i`, an exact root) AS IT IS is its own dagger, so the dagger evaluates to
+    `2i`, not to `conj(2i) = -2i`. -/
+theorem F4k_sqrt_negative :
+    Gate.sqrtExact (.sqrt (Cyc8.ofInt (-4)) ⟨0, 0, 2, 0, 0⟩) = true ∧
+    sqrtSelfAdjointW false (Cyc8.ofInt (-4)) ⟨0, 0, 2, 0, 0⟩ = true ∧
+    (sqrtDaggerW false (Cyc8.ofInt (-4)) ⟨0, 0, 2, 0, 0⟩).evalW true ≠
+      dagger ((Gate.sqrt (Cyc8.ofInt (-4)) ⟨0, 0, 2, 0, 0⟩).evalW true) ∧
+    (sqrtDaggerW true (Cyc8.ofInt (-4)) ⟨0, 0, 2, 0, 0⟩).evalW true =
+      dagger ((Gate.sqrt (Cyc8.ofInt (-4)) ⟨0, 0, 2, 0, 0⟩).evalW true) := by decide
+
+/-- Sanity of the root convention on the cases the harness pins: `sqrt(2)` has the value `√2 = ζ − ζ³`,
+    `sqrt(2i)` the value `1 + i`, `sqrt(i)` the value `ζ`, `sqrt(-3+4i)` the value `1 + 2i`. -/
+theorem sqrt_exact_examples :
+    Gate.sqrtExact (.sqrt (Cyc8.ofInt 2) Cyc8.sqrt2) = true ∧
+    Gate.sqrtExact (.sqrt ⟨0, 0, 2, 0, 0⟩ ⟨1, 0, 1, 0, 0⟩) = true ∧
+    Gate.sqrtExact (.sqrt Cyc8.I Cyc8.zeta) = true ∧
+    Gate.sqrtExact (.sqrt ⟨-3, 0, 4, 0, 0⟩ ⟨1, 0, 2, 0, 0⟩) = true := by decide
+
+/-! ### calling conventions of `Circuit.eval` (circuit.py:244-253, 657-664) -/
+
+theorem getElem?_map_some {α β : Type} (f : α → β) (l : List α) (i : Nat) (a : α) (h : l[i]? = some a) :
+    (l.map f)[i]? = some (f a) := by simp [h]
+
+/-- **A pure circuit evaluated without `mixed=True` is evaluated by the tensor functor whatever it is
+    batched with**: in `first.eval(c₁, …, cₖ)` the `i`-th circuit of `(first, c₁, …, cₖ)` gets the mode
+    `is_mixed` of ITSELF. -/
+theorem evalModes_own (selfMixed : Bool) (others : List Bool) (i : Nat) (m : Bool)
+    (h : (selfMixed :: others)[i]? = some m) : (evalModes false selfMixed others)[i]? = some m := by
+  unfold evalModes
+  split
+  · rename_i he
+    have : others = [] := by simpa using he
+    subst this
+    cases i with
+    | zero => simpa [evalMode1] using h
+    | succ i => simp at h
+  · have := getElem?_map_some (evalMode1 false) (selfMixed :: others) i m h
+    simpa [evalMode1] using this
+
+/-- … and with `mixed=True` every circuit of the call is evaluated by the CQ functor. -/
+theorem evalModes_flag (selfMixed : Bool) (others : List Bool) :
+    ∀ m ∈ evalModes true selfMixed others, m = true := by
+  unfold evalModes
+  split <;> simp [evalMode1]
+
+/-- The number of results is the number of circuits. -/
+theorem evalModes_length (flag selfMixed : Bool) (others : List Bool) :
+    (evalModes flag selfMixed others).length = others.length + 1 := by
+  unfold evalModes
+  split
+  · rename_i he
+    have : others = [] := by simpa using he
+    subst this; rfl
+  · simp
+
+/-- `Sum.eval`: a sum of pure circuits evaluated without `mixed=True` adds up TENSORS (one mode for all
+    terms, and it is the pure one iff no term is mixed and the flag is off). -/
+theorem sumModes_uniform (flag : Bool) (terms : List Bool) (ms : List Bool) (h : sumModes flag terms = some ms) :
+    ms.length = terms.length ∧ ∀ m ∈ ms, m = (flag || terms.any id) := by
+  match terms, h with
+  | [t], h =>
+    simp only [sumModes, Option.some.injEq] at h
+    subst h
+    cases t <;> cases flag <;> simp [evalMode1]
+  | t :: t' :: rest, h =>
+    simp only [sumModes, Option.some.injEq] at h
+    subst h
+    refine ⟨by simp [evalModes_length], ?_⟩
+    intro m hm
+    simp only [evalModes, List.isEmpty_cons, Bool.false_eq_true, if_false, List.mem_map] at hm
+    obtain ⟨x, hx, rfl⟩ := hm
+    have hx' : x = true → (t :: t' :: rest).any id = true := fun e => by
+      subst e; exact List.any_eq_true.2 ⟨true, hx, rfl⟩
+    cases x <;> cases flag <;> simp_all [evalMode1]
 
 def oneQubitNamed : List QGate := [gH, gS, gT, gX, gY, gZ]
 
